@@ -80,7 +80,7 @@ func TestC11Checkpoints(t *testing.T) {
 	rng := NewRng(r.Seed, "c11")
 	shard, shards := shardInfo()
 	rng = rng.Fork(fmt.Sprint(shard))
-	n := pick(48, 1600) / shards
+	n := pick(120, 1600) / shards
 	if n < 2 {
 		n = 2
 	}
